@@ -35,6 +35,23 @@ CLAIMED = {
              "NOT decided. Assumes std::vector move leaves the source empty and that users do not mutate the map through "
              "the non-const accessor.",
     ),
+    "C10": dict(
+        category="other",
+        design_ref="DESIGN.md section 3 / C10",
+        technique="static analysis: E-BOUNDS abstract interpretation with a proved class invariant, by-reference effect "
+                  "summaries, pairing / must-pass-through and shape rules on the clang CFG",
+        text="Decides the structural clauses of C10: (R1) every raw access of every DNS member function stays inside "
+             "records_data_ or the caller's buffers (incl. the 256-byte name buffers), given the class invariant "
+             "answers<=authority<=additional<=size which is proved for the constructors and add_query and carried by shape "
+             "rules for the add_record family; (R2) each add_* bumps exactly its own header count on every path; (R3) "
+             "exactly the later sections are shifted, by exactly the bytes inserted; (R4) each getter reads its own "
+             "section; (R5) the record walker keeps cursor and remaining length in lock-step. Three genuine defects were "
+             "found: two repaired (fix: commits), one recorded as known finding (update_records' unbounded walk on "
+             "hostile record data).",
+        note="NOT decided: pointer-rewriting arithmetic, name length limits (255 octets), typed record data, "
+             "re-parse equality. The add_record family reaches the indices through pointers-to-member, outside E-BOUNDS' "
+             "language: its invariant obligations are carried by R3's shape rules, not proved.",
+    ),
     "C12": dict(
         category="other",
         design_ref="DESIGN.md section 3 / C12",
